@@ -24,8 +24,8 @@ MANIFEST = {
     "engine": "histx",
     "technique": "explicit-state breadth-first exploration of topology transformation histories on the real objects "
                  "against a list-of-records reference model with a per-carrier capability table",
-    "text": "From 5 hand-built topologies (explicit/default/repeated chain ids; resSeq repeated, 0, negative; serials 5, 7, "
-            "100000; virtual site; all bond types with and without order; bonds across residues and chains; one-atom "
+    "text": "From 6 hand-built topologies (explicit/default/repeated chain ids; resSeq repeated, 0, negative, identical "
+            "neighbouring residues; serials 5, 7, 100000; virtual site; all bond types with and without order; bonds across residues and chains; one-atom "
             "residues; segment ids) all histories over {copy, deepcopy, pickle, subset(s) for EVERY non-empty increasing "
             "subset when n<=6 atoms (menu of <=15 beyond), join(self|partner|root, keep_resSeq T/F), "
             "to_dataframe->from_dataframe, save/load .h5, save/load .pdb} to depth 2 (thorough 3), states merged only on "
